@@ -212,7 +212,12 @@ pub struct Call {
     pub res: Res,
     pub now_ms_inv: u64,
     pub now_ms_ret: u64,
+    /// lazy multi-key reads (the iterator variants): one (invocation, return) stamp pair per `next()`; each
+    /// element is a read of its own. Empty for every other call.
+    pub elems: Vec<(u64, u64)>,
 }
+
+thread_local! { static ELEM_STAMPS: std::cell::RefCell<Vec<(u64, u64)>> = std::cell::RefCell::new(Vec::new()); }
 
 pub const PHASE_INIT: usize = usize::MAX - 1;
 pub const PHASE_POST: usize = usize::MAX;
@@ -388,14 +393,45 @@ fn read_many(cache: &Cache, keys: &[K], variant: ReadVariant) -> Vec<Option<V>> 
             keys.iter().map(|k| m.get(k).cloned().flatten()).collect()
         }
         ReadVariant::MultiGetIterator => {
-            let mut out: Vec<Option<V>> = cache.multi_get_iterator(refs).collect();
+            // consumed one `next()` at a time, each stamped: the iterator is lazy, every element is its own read
+            let mut it = cache.multi_get_iterator(refs);
+            let mut out: Vec<Option<V>> = Vec::new();
+            let mut stamps = Vec::new();
+            loop {
+                let a = world::stamp();
+                let n = it.next();
+                let b = world::stamp();
+                match n {
+                    Some(v) => {
+                        out.push(v);
+                        stamps.push((a, b));
+                    }
+                    None => break,
+                }
+            }
+            ELEM_STAMPS.with(|e| *e.borrow_mut() = stamps);
             while out.len() < keys.len() {
                 out.push(None);
             }
             out
         }
         ReadVariant::MultiGetMapIterator => {
-            let mut out: Vec<Option<V>> = cache.multi_get_map_iterator(refs, |v| v).collect();
+            let mut it = cache.multi_get_map_iterator(refs, |v| v);
+            let mut out: Vec<Option<V>> = Vec::new();
+            let mut stamps = Vec::new();
+            loop {
+                let a = world::stamp();
+                let n = it.next();
+                let b = world::stamp();
+                match n {
+                    Some(v) => {
+                        out.push(v);
+                        stamps.push((a, b));
+                    }
+                    None => break,
+                }
+            }
+            ELEM_STAMPS.with(|e| *e.borrow_mut() = stamps);
             while out.len() < keys.len() {
                 out.push(None);
             }
@@ -476,7 +512,10 @@ impl ThreadCtx {
             }
             Op::Delete { k } => catch(|| cache.delete(*k)).map(|r| self.write_res(idx, mark, r)),
             Op::Read { k, variant } => catch(|| read_one(cache, *k, *variant)).map(Res::Read),
-            Op::MultiRead { keys, variant } => catch(|| read_many(cache, keys, *variant)).map(Res::MultiRead),
+            Op::MultiRead { keys, variant } => {
+                ELEM_STAMPS.with(|e| e.borrow_mut().clear());
+                catch(|| read_many(cache, keys, *variant)).map(Res::MultiRead)
+            }
             Op::ReadAll { keys } => catch(|| {
                 let mut out = Vec::new();
                 for v in ALL_READ_VARIANTS.iter() {
@@ -540,7 +579,8 @@ impl ThreadCtx {
         };
         let ret = world::stamp();
         let now_ms_ret = env.now();
-        self.calls.push(Call { thread, idx, op: op.clone(), value, inv, ret, res, now_ms_inv, now_ms_ret });
+        let elems = if matches!(op, Op::MultiRead { .. }) { ELEM_STAMPS.with(|e| std::mem::take(&mut *e.borrow_mut())) } else { Vec::new() };
+        self.calls.push(Call { thread, idx, op: op.clone(), value, inv, ret, res, now_ms_inv, now_ms_ret, elems });
     }
 
     fn write_res(&mut self, idx: usize, mark: usize, r: crate::cache::command::command_executor::CommandSendResult) -> Res {
